@@ -26,7 +26,7 @@ def prefs_tokens(rng):
     if rng.random() < 0.4:
         toks.append(f"threads={rng.choice([1, 2, 4])}")
     if rng.random() < 0.25:
-        toks.append(f"fb={rng.choice([20, 50, 100, 300])}")
+        toks.append(f"fb={rng.choice([60, 100, 300])}")    # a factor base far too small for the input makes classical QS loop for ever (user override, not judged)
     if rng.random() < 0.25:
         toks.append(f"lf={rng.choice([1, 2, 10, 100])}")
     if rng.random() < 0.3:
@@ -38,7 +38,7 @@ def prefs_tokens(rng):
 
 def cases(tier, rng, extended=False):
     quick = tier == "quick"
-    count = 300 if quick else 1200
+    count = 600 if quick else 1500
     if extended:
         count *= 5
     maxbits = 100 if quick else 115
@@ -68,6 +68,9 @@ def cases(tier, rng, extended=False):
         # sieves on tiny inputs crash (findings under C03); C01 is about returned lists: keep sieves >= 40 bits here
         if fc.nred_bits(inp.n) < 40:
             algs = [a for a in algs if a not in ("qs", "mpqs", "siqs", "qs64")]
+        # classical QS has no early exit on larger inputs (minutes): keep it below 80 bits
+        if fc.nred_bits(inp.n) > 80:
+            algs = [a for a in algs if a != "qs"]
         # P-1 on big inputs is slow: keep it below 70 bits
         if inp.n.bit_length() > 60:
             algs = [a for a in algs if a != "pm1"]
